@@ -17,6 +17,7 @@ everything outside that region.
 import ClvmProofs.Lemmas.Interp.Flags
 import ClvmProofs.Lemmas.Interp.FlagsDispatch
 import ClvmProofs.Lemmas.Interp.FlagsWitness
+import ClvmProofs.Lemmas.Interp.LiftRestrict
 
 namespace Clvm.Props.C07
 open Clvm Clvm.Interp
@@ -67,5 +68,35 @@ theorem whole_program_witness :
   c07_canonicalInts_witness
 
 theorem whole_program_statement_false : ¬ WholeProgramStatement := evalRestrict_witness
+
+/-- **Whole programs (partial).** For every program, environment, budget, fuel and allocator
+state: if the run succeeds under `F ∪ R` (`R` any set of restriction flags) then it succeeds
+identically (result, cost, counters) under `F` — provided `R` does not add CANONICAL_INTS, or
+NO_UNKNOWN_OPS is in force.  The excluded region is exactly known finding K
+(`whole_program_statement_false`). -/
+theorem whole_program_restrict_partial (cfg : Cfg) (extra : String → Option OpFn)
+    (hextra : ∀ name f, extra name = some f → OpRestrict f) (F R : Nat) (hR : R &&& restrictionBits = R)
+    (hK : hasFlag R Gen.FLAG_CANONICAL_INTS = false ∨ hasFlag (F ||| R) Gen.FLAG_NO_UNKNOWN_OPS = true)
+    (fuel : Nat) (c0 : Ctr) (prog env : Val) (m : Nat) (r : Nat × Val × Ctr)
+    (h : runProgram cfg (chiaDialect cfg extra (F ||| R)) fuel c0 prog env m = some (.ok r)) :
+    runProgram cfg (chiaDialect cfg extra F) fuel c0 prog env m = some (.ok r) :=
+  eval_restrict_partial cfg extra hextra F R hR hK fuel c0 prog env m r h
+
+/-- **Anything accepted in mempool mode is accepted, with the same cost, under consensus flags**
+(full strength: MEMPOOL_MODE contains NO_UNKNOWN_OPS). -/
+theorem whole_program_mempool_implies_consensus (cfg : Cfg) (extra : String → Option OpFn)
+    (hextra : ∀ name f, extra name = some f → OpRestrict f) (F : Nat)
+    (fuel : Nat) (c0 : Ctr) (prog env : Val) (m : Nat) (r : Nat × Val × Ctr)
+    (h : runProgram cfg (chiaDialect cfg extra (F ||| Gen.MEMPOOL_MODE)) fuel c0 prog env m = some (.ok r)) :
+    runProgram cfg (chiaDialect cfg extra F) fuel c0 prog env m = some (.ok r) :=
+  mempool_implies_consensus cfg extra hextra F fuel c0 prog env m r h
+
+/-- **RELAXED_BLS never turns a success into a failure or changes it** (whole programs). -/
+theorem whole_program_relaxed_bls (cfg : Cfg) (extra : String → Option OpFn)
+    (hextra : ∀ name f, extra name = some f → OpRelax f) (F : Nat)
+    (fuel : Nat) (c0 : Ctr) (prog env : Val) (m : Nat) (r : Nat × Val × Ctr)
+    (h : runProgram cfg (chiaDialect cfg extra F) fuel c0 prog env m = some (.ok r)) :
+    runProgram cfg (chiaDialect cfg extra (F ||| Gen.FLAG_RELAXED_BLS)) fuel c0 prog env m = some (.ok r) :=
+  eval_relaxed cfg extra hextra F fuel c0 prog env m r h
 
 end Clvm.Props.C07
